@@ -5,22 +5,22 @@ From Coq Require Import ZifyBool.
 
 Lemma sse_shrinks s b s' b' o : sse_stage s b = Step s' b' o -> length b' < length b.
 Proof.
-  unfold sse_stage. destruct (line_stage ESse (s_skip s) b) as [|k r l|e] eqn:E; try discriminate.
-  apply line_shrinks in E. destruct (sse_line (with_skip s k) l). intros H; inversion H; subst; exact E.
+  unfold sse_stage. destruct (line_stage ESse (fst s) b) as [|k r l|e] eqn:E; try discriminate.
+  apply line_shrinks in E. destruct (sse_line (snd s) l). intros H; inversion H; subst; exact E.
 Qed.
 
 Lemma sse_stable_step s b s' b' o c :
   sse_stage s b = Step s' b' o -> sse_stage s (b ++ c) = Step s' (b' ++ c) o.
 Proof.
-  unfold sse_stage. destruct (line_stage ESse (s_skip s) b) as [|k r l|e] eqn:E; try discriminate.
-  rewrite (line_stable_step _ _ _ _ _ _ c E). destruct (sse_line (with_skip s k) l).
+  unfold sse_stage. destruct (line_stage ESse (fst s) b) as [|k r l|e] eqn:E; try discriminate.
+  rewrite (line_stable_step _ _ _ _ _ _ c E). destruct (sse_line (snd s) l).
   intros H; inversion H; subst; reflexivity.
 Qed.
 
 Lemma sse_stable_fail s b e c : sse_stage s b = Fail e -> sse_stage s (b ++ c) = Fail e.
 Proof.
-  unfold sse_stage. destruct (line_stage ESse (s_skip s) b) as [|k r l|e'] eqn:E; try discriminate.
-  - destruct (sse_line (with_skip s k) l); discriminate.
+  unfold sse_stage. destruct (line_stage ESse (fst s) b) as [|k r l|e'] eqn:E; try discriminate.
+  - destruct (sse_line (snd s) l); discriminate.
   - rewrite (line_stable_fail _ _ _ _ c E). auto.
 Qed.
 
